@@ -588,14 +588,16 @@ def run_e2e_case(case):
                         from edb.schema import ddl as s_ddl
                         ta = s_ddl.sdl_text_from_schema(committed)
                         tb = s_ddl.sdl_text_from_schema(direct)
-                        if _norm_sdl(ta) != _norm_sdl(tb):
+                        # normalised SDL comparison: union members sorted (union_of is a set) and explicitly
+                        # spelled DEFAULT values removed (`on target delete restrict;`, `readonly := false;`,
+                        # `single` / `optional`): how DESCRIBE spells a default is not part of "the same schema";
+                        # where explicitness matters it reaches the descendants' inherited_fields, which the
+                        # structural dump compares.
+                        if _norm_explicit(ta) != _norm_explicit(tb):
                             import difflib
-                            la, lb = _norm_sdl(ta).split('\n'), _norm_sdl(tb).split('\n')
+                            la, lb = _norm_explicit(ta).split('\n'), _norm_explicit(tb).split('\n')
                             dl = [l for l in difflib.unified_diff(la, lb, 'chain', 'direct', n=1, lineterm='')][:40]
                             cmpres = {'sdl_diff': dl}
-                            # is the only difference a set of explicitly stated DEFAULT values?
-                            if _norm_explicit(ta) == _norm_explicit(tb):
-                                cmpres['sdl_diff_kind'] = 'only-explicit-default-values'
                     r['direct'] = {'status': 'accepted', 'cmp': cmpres}
             except Exception as e:  # noqa
                 r['direct'] = {'status': 'harness-error', 'err': errinfo(e)}
